@@ -21,7 +21,7 @@ META.update({
 })
 
 CONFIGS = {
-    "quick": [(1, 1, 1, 1), (1, 2, 2, 1), (1, 1, 2, 1)],
+    "quick": [(1, 1, 1, 1), (1, 2, 2, 1), (1, 1, 2, 1), (2, 1, 1, 1)],
     "thorough": [(1, 1, 1, 1), (1, 2, 2, 1), (1, 1, 2, 1), (2, 1, 2, 1), (1, 2, 3, 1), (2, 1, 2, 2), (2, 2, 4, 1), (3, 1, 3, 1)],
 }
 
